@@ -43,6 +43,10 @@ fn base_cfg(tier: Tier, index: u64) -> HistCfg {
             ..Default::default()
         },
         target_pct: 0,
+        prelude: Prelude::None,
+        phases: false,
+        special_keys: false,
+        default_table: false,
     };
     // every 12th case: hundreds of keys, so that the tiny tables of the tuple carry chains
     // of several hundred entries
